@@ -1,6 +1,7 @@
 SPECIFICATION TSpec
 CONSTANTS
   Keys <- TKeys
+  MapKeys <- TKeys
   Vals <- TVals
   MaxDepth = 99
   Bug = ""
